@@ -11,5 +11,5 @@ if ! git apply $DIR/patch.diff 2>/dev/null; then echo "PATCH DOES NOT APPLY"; gi
 echo "== tests with the change"; ( cd $D/repo && PYTHONPATH=$D/repo/src timeout 900 /venv/bin/python -m pytest -q -p no:cacheprovider tests/test_conveyor.py tests/test_machine.py tests/test_reservable_priority_req_filter_store.py tests/test_reservable_priority_req_store.py 2>&1 | tail -1 )
 echo "== demo with the change"; ( cd $D/repo && PYTHONPATH=$D/repo/src timeout 180 /venv/bin/python $DIR/demo.py >/dev/null 2>&1; echo "   demo rc=$?" )
 echo "== check $PROP with the change"
-( cd /verif && PYVC_REPO=$D/repo python3-vt checks/check.py $PROP "$@" 2>&1 | cut -c1-400 | tail -6; echo "   check rc=${PIPESTATUS[0]}" )
+( cd /verif && VERIF_EVIDENCE_DIR=$D/evidence VERIF_REPLAY_DIR=$D/replays PYVC_REPO=$D/repo python3-vt checks/check.py $PROP "$@" 2>&1 | cut -c1-400 | tail -6; echo "   check rc=${PIPESTATUS[0]}" )
 rm -rf $D
